@@ -253,11 +253,20 @@ def rule_shadow(ctx):
         if core.split("::")[-1] not in ("Mu", "Clause", "Def"):
             continue
         fn = Fn(f)
-        names = [t.get("callee_name") for _, t in fn.calls()]
-        sub = set(names)
-        for ck, g in fx.fns.items():
-            if (g.get("parent") or "").startswith(k):
-                sub |= {t.get("callee_name") for _, t in Fn(g).calls()}
+
+        def names_of(k0, depth, seen):
+            """names of the calls made by k0, by its closures and by the workspace helpers it calls (two levels)"""
+            out = set()
+            bodies = [k0] + [ck for ck, g in fx.fns.items() if (g.get("parent") or "").startswith(k0)]
+            for b in bodies:
+                for _, t in Fn(fx.fns[b]).calls():
+                    out.add(t.get("callee_name"))
+                    k2 = t.get("resolved_key") or (t.get("callee_key") if not t.get("callee_trait") else None)
+                    if depth < 2 and k2 in fx.fns and fx.fns[k2]["crate"] == "scc_core_lang" and k2 not in seen and "{closure" not in k2 \
+                            and t.get("callee_name") not in ("uniquify", "subst_sim", "subst_var", "subst_covar", "focus", "bind", "bind_many"):
+                        out |= names_of(k2, depth + 1, seen | {k2})
+            return out
+        sub = names_of(k, 0, frozenset([k]))
         ikey = "%s:rename-binder" % k
         need_fresh = "fresh_identifier" in sub or "fresh_var" in sub or "fresh_covar" in sub
         need_subst = any(n in sub for n in ("subst_sim", "subst_var", "subst_covar"))
